@@ -19,6 +19,7 @@ RULE = (
     "elements; distinct = sha1 of the serialised case. rank: generated connected meshes with >=2 "
     "elements per element type."
     ' mesh_rules: every documented rule requested by point count on an affine mesh of every element type; returned_arrays: in-place use of the arrays a rule returns, every (type, matrix type) pair (non-trivial = every case).'
+    " offered_counts: every integer count 1..40 per shape; counts Gauss() refuses are trivial, accepted ones are held to the docstring's order."
 )
 ASSUMPTIONS = [
     "documented degree taken from the docstrings of Gauss._Triangle/_Quadrangle/_Tetrahedron/"
